@@ -10,7 +10,17 @@ def run_task(task: dict) -> dict:
     from clingo.ast import parse_string  # pylint: disable=import-outside-toplevel
     from ngo import Predicate, auto_detect_input, auto_detect_output, optimize  # pylint: disable=import-outside-toplevel
 
+    import signal  # pylint: disable=import-outside-toplevel
+
+    class _Timeout(BaseException):
+        """watchdog"""
+
+    def _alarm(*_: object) -> None:
+        raise _Timeout()
+
     prg: list = []
+    signal.signal(signal.SIGALRM, _alarm)
+    signal.setitimer(signal.ITIMER_REAL, float(task.get("timeout", 25.0)))
     try:
         parse_string(task["src"], prg.append)
         inp = auto_detect_input(prg) if task["IN"] == "auto" else [Predicate(n, int(a)) for n, a in task["IN"]]
@@ -18,10 +28,14 @@ def run_task(task: dict) -> dict:
         flags = {t: (t in task["traits"]) for t in ["cleanup", "unused", "duplication", "symmetry", "minmax_chains", "sum_chains", "math", "inline", "projection"]}
         res = optimize(prg, inp, outp, **flags)
         return {"key": task["key"], "out": "".join(str(s) + "\n" for s in res)}
+    except _Timeout:
+        return {"key": task["key"], "error": "TimeoutError"}
     except BaseException as exc:  # pylint: disable=broad-except
         if isinstance(exc, (KeyboardInterrupt, SystemExit)):
             raise
         return {"key": task["key"], "error": type(exc).__name__}
+    finally:
+        signal.setitimer(signal.ITIMER_REAL, 0)
 
 
 def main() -> None:
